@@ -257,10 +257,21 @@ class CtlWorld:
         if text.startswith("usage: "):
             usage = text[7:].split()[0] if len(text) > 7 and text[7:].split() else ""
         doc = st["unanswered"][0][2] if (st["writes"] > 1 and st["unanswered"]) else ""
-        squeeze = lambda x: "".join(x.split())      # help text is wrapped to the terminal width
+        # help text is wrapped to the terminal width, and doc markup (`x`, :meth:`y`, *z*) may or may not be shown verbatim:
+        # "describes it" = the words of the docstring's first line appear, in order
+        squeeze = lambda x: "".join(re.sub(r":[a-z]+:|[`*]", "", x).split()).lower()
+
+        def described(doc, text):
+            # most of the words of the docstring's summary line show up in the help page (a verbatim copy is not demanded:
+            # a maintainer may strip markup or cross references such as "(see below)" from what the client is shown)
+            words = [w.lower() for w in re.findall(r"[A-Za-z_]{4,}", re.sub(r":[a-z]+:|[`*]", "", doc))]
+            if not words:
+                return squeeze(doc) in squeeze(text)
+            sq = squeeze(text)
+            return sum(1 for w in words if w in sq) * 10 >= len(words) * 6
         self.ev("write", s=s, k=st["writes"], text=text, nl=data.endswith(b"\n") and data.count(b"\n") >= 1,
                 usage=usage, hashelp=("-h, --help" in text), invalid=(": error:" in text),
-                hasdoc=bool(doc) and squeeze(doc) in squeeze(text))
+                hasdoc=bool(doc) and described(doc, text))
         # bookkeeping for commands whose method waits: pair the reply with the twin's result once both exist
         if st["writes"] > 1 and st["unanswered"]:
             k, tw, _doc, deferred = st["unanswered"].pop(0)
